@@ -1,4 +1,5 @@
 import Marwood.Lemmas.CompileCorrect
+import Marwood.Lemmas.CompileCorrect2Quote
 /-!
 # T01.3 STAGE 2 — `lambda`, closures, lexical variables: definitions
 
@@ -22,7 +23,7 @@ lambda parameters at any nesting depth, in any binding context `c : Ctx` of the 
   `globPut`, and the behaviour of builtins);
 * `F2` — the fragment, indexed by compiler fuel, binding context, the set of lexically bound names and the
   tail flag: it carries well-scopedness (the compiler's free-variable analysis has put exactly the bound
-  names in the environment map) and, in this first version, has applications in NON-TAIL position only.
+  names in the environment map).
 -/
 namespace Marwood.Lemmas.CompileCorrect2
 open Marwood Marwood.Vm Marwood.Lemmas.CompileCorrect
@@ -63,25 +64,28 @@ def bound (ρ : Env) : Text → Prop := fun x => (ρ.lookup x).isSome = true
 /-! ## the fragment -/
 
 mutual
-/-- `F2 fuel c ns tail e`: `e` is a stage-2 expression, compiled with `fuel` in context `c` with tail flag
+/-- `F2 G fuel c ns tail e`: `e` is a stage-2 expression (`G`: the globals `set!` may assign), compiled with `fuel` in context `c` with tail flag
     `tail`, and the names with an entry in `c`'s environment map are exactly the lexically bound names `ns`
     among those `e` refers to -/
-inductive F2 : Nat → Ctx → (Text → Prop) → Bool → Datum → Prop
-  | bool {f c ns t} (b : Bool) : F2 (f + 1) c ns t (.bool b)
-  | char {f c ns t} (ch : Char) : F2 (f + 1) c ns t (.char ch)
-  | num {f c ns t} (n : Num) : F2 (f + 1) c ns t (.num n)
-  | str {f c ns t} (s : Text) : F2 (f + 1) c ns t (.str s)
-  | quote {f c ns t} (d rest : Datum) : IsAtom d → F2 (f + 1) c ns t (.pair (.sym k_quote) (.pair d rest))
-  | sym {f c ns t} (x : Text) : (inEnv c x = true ↔ ns x) → F2 (f + 1) c ns t (.sym x)
-  | setBang {f c ns t} (x : Text) (e : Datum) : (inEnv c x = true ↔ ns x) → F2 f c ns false e →
-      F2 (f + 1) c ns t (.pair (.sym k_setBang) (.pair (.sym x) (.pair e .nil)))
-  | if2 {f c ns t} (tst cn : Datum) : F2 f c ns false tst → F2 f c ns t cn →
-      F2 (f + 1) c ns t (.pair (.sym k_if_) (.pair tst (.pair cn .nil)))
-  | if3 {f c ns t} (tst cn al : Datum) : F2 f c ns false tst → F2 f c ns t cn → F2 f c ns t al →
-      F2 (f + 1) c ns t (.pair (.sym k_if_) (.pair tst (.pair cn (.pair al .nil))))
-  /-- application, non-tail position only -/
-  | app {f c ns} (fn args : Datum) : AppHead fn → F2 f c ns false fn → F2L f c ns args →
-      F2 (f + 1) c ns false (.pair fn args)
+inductive F2 (G : Text → Prop) : Nat → Ctx → (Text → Prop) → Bool → Datum → Prop
+  | bool {f c ns t} (b : Bool) : F2 G (f + 1) c ns t (.bool b)
+  | char {f c ns t} (ch : Char) : F2 G (f + 1) c ns t (.char ch)
+  | num {f c ns t} (n : Num) : F2 G (f + 1) c ns t (.num n)
+  | str {f c ns t} (s : Text) : F2 G (f + 1) c ns t (.str s)
+  /-- `(quote d)`, any datum (pairs and vectors included), and a self-evaluating vector constant -/
+  | quote {f c ns t} (d rest : Datum) : F2 G (f + 1) c ns t (.pair (.sym k_quote) (.pair d rest))
+  | vecc {f c ns t} (e : Datum) : F2 G (f + 1) c ns t (.vec e)
+  | sym {f c ns t} (x : Text) : (inEnv c x = true ↔ ns x) → F2 G (f + 1) c ns t (.sym x)
+  | setBang {f c ns t} (x : Text) (e : Datum) : (inEnv c x = true ↔ ns x) → (¬ ns x → G x) →
+      F2 G f c ns false e →
+      F2 G (f + 1) c ns t (.pair (.sym k_setBang) (.pair (.sym x) (.pair e .nil)))
+  | if2 {f c ns t} (tst cn : Datum) : F2 G f c ns false tst → F2 G f c ns t cn →
+      F2 G (f + 1) c ns t (.pair (.sym k_if_) (.pair tst (.pair cn .nil)))
+  | if3 {f c ns t} (tst cn al : Datum) : F2 G f c ns false tst → F2 G f c ns t cn → F2 G f c ns t al →
+      F2 G (f + 1) c ns t (.pair (.sym k_if_) (.pair tst (.pair cn (.pair al .nil))))
+  /-- application, in tail or non-tail position -/
+  | app {f c ns t} (fn args : Datum) : AppHead fn → F2 G f c ns false fn → F2L G f c ns args →
+      F2 G (f + 1) c ns t (.pair fn args)
   /-- `(lambda (x …) b bs …)`: fixed arity, distinct parameters, no internal definitions; the map of the
       new lambda is the formals followed by captured variables, each taken from the enclosing map -/
   | lambda {f c ns t} (formals body : Datum) (p : LambdaParts) (ps : List Text) (b : Datum) (bs : List Datum)
@@ -90,28 +94,33 @@ inductive F2 : Nat → Ctx → (Text → Prop) → Bool → Datum → Prop
       Spec.Eval.parseFormals formals = some (ps, none) → p.formals = ps → p.isVararg = false → ps.Nodup →
       properList body = some (b :: bs) → (∀ e ∈ b :: bs, Spec.Eval.isDefine e = false) →
       p.ctx.envmap = argEntries ps ++ caps → (∀ q ∈ caps, q.2 = .iofEnvironment ∧ inEnv c q.1 = true) →
-      F2B f p.ctx (fun x => x ∈ ps ∨ ns x) body →
-      F2 (f + 1) c ns t (.pair (.sym k_lambda) (.pair formals body))
+      F2B G f p.ctx (fun x => x ∈ ps ∨ ns x) body →
+      F2 G (f + 1) c ns t (.pair (.sym k_lambda) (.pair formals body))
 /-- operand lists -/
-inductive F2L : Nat → Ctx → (Text → Prop) → Datum → Prop
-  | nil {f c ns} : F2L (f + 1) c ns .nil
-  | cons {f c ns} (a d : Datum) : F2 f c ns false a → F2L f c ns d → F2L (f + 1) c ns (.pair a d)
+inductive F2L (G : Text → Prop) : Nat → Ctx → (Text → Prop) → Datum → Prop
+  | nil {f c ns} : F2L G (f + 1) c ns .nil
+  | cons {f c ns} (a d : Datum) : F2 G f c ns false a → F2L G f c ns d → F2L G (f + 1) c ns (.pair a d)
 /-- bodies: the last expression is in tail position -/
-inductive F2B : Nat → Ctx → (Text → Prop) → Datum → Prop
-  | last {f c ns} (x : Datum) : F2 f c ns true x → F2B (f + 1) c ns (.pair x .nil)
-  | cons {f c ns} (x y rest : Datum) : F2 f c ns false x → F2B f c ns (.pair y rest) →
-      F2B (f + 1) c ns (.pair x (.pair y rest))
+inductive F2B (G : Text → Prop) : Nat → Ctx → (Text → Prop) → Datum → Prop
+  | last {f c ns} (x : Datum) : F2 G f c ns true x → F2B G (f + 1) c ns (.pair x .nil)
+  | cons {f c ns} (x y rest : Datum) : F2 G f c ns false x → F2B G f c ns (.pair y rest) →
+      F2B G (f + 1) c ns (.pair x (.pair y rest))
 end
 
 /-! ## representation -/
 
 structure RepData2 (ops : HeapOps H) extends RepData ops where
+  /-- the element cells of the vector a machine value denotes (vector payloads are opaque in `Machine.lean`) -/
+  vecElems : H → VCell → Option (List VCell)
   /-- the sources of the environment map of the lambda object at a heap address -/
   lamSrcs : H → Nat → Option (List RSrc)
   /-- heap address of the lambda with a given index in the compiler's table -/
   LM : Nat → Nat
   /-- the compiler's table after the whole program has been compiled -/
   final : List LambdaM
+  /-- the global variables `set!` may assign: they are bound, and stay bound (marwood's `set!` of an unbound
+      global defines it, `Spec.Eval`'s fails: DESIGN §7.5) -/
+  setG : Text → Prop
 
 variable {ops : HeapOps H}
 
@@ -145,7 +154,7 @@ def ClosOK (D : RepData2 ops) (W : World) (h : H) (lam cenv : Nat) (ps : List Te
     compileBody f cst p.ctx 1 bodyD = .ok (cst1, bcode) ∧
     D.final[cst1.lambdas.length]? = some (lamOf p bcode) ∧ cst1.lambdas <+: D.final ∧
     lam = D.LM cst1.lambdas.length ∧ ops.isLambda h lam = true ∧
-    F2B f p.ctx (fun x => x ∈ ps ∨ bound ρc x) bodyD ∧
+    F2B D.setG f p.ctx (fun x => x ∈ ps ∨ bound ρc x) bodyD ∧
     D.lamSrcs h lam = some (p.ctx.envmap.map (rsrc co.envmap)) ∧
     p.ctx.envmap = argEntries ps ++ caps ∧ (∀ q ∈ caps, q.2 = .iofEnvironment) ∧
     (∀ j, j < p.ctx.envmap.length → ∃ g, ops.envGet h cenv j = some g) ∧
@@ -167,7 +176,7 @@ def Loads2 (D : RepData2 ops) (em : List (Text × Source)) (h : H) (S : Array Ce
   | .argc n, v => v = .argc n
   | .target o, v => v = .ptr o
   | .void, v => v = .void
-  | .datum d, v => (∀ o, v ≠ .opcode o) ∧ ∀ w, atomVal d = some w → D.VR h S v w
+  | .datum d, v => (∀ o, v ≠ .opcode o) ∧ DatumAt D.toRepData D.vecElems h S v d
   | .lambda id, v => v = .ptr (D.LM id) ∧ ∀ lamM, D.final[id]? = some lamM →
       ops.isLambda h (D.LM id) = true ∧ D.lamSrcs h (D.LM id) = some (lamM.envmap.map (rsrc em))
   | _, _ => False
@@ -193,6 +202,8 @@ structure StoreExt (S S' : Array Cell) : Prop where
 structure Ext2 (D : RepData2 ops) (h : H) (S : Array Cell) (h' : H) (S' : Array Cell) : Prop where
   store : StoreExt S S'
   vr : ∀ v w, D.VR h S v w → D.VR h' S' v w
+  /-- compile-time constants stay as they were laid out (nothing mutates a constant) -/
+  datum : ∀ v d, DatumAt D.toRepData D.vecElems h S v d → DatumAt D.toRepData D.vecElems h' S' v d
   code : ∀ l, ops.isLambda h l = true → ops.isLambda h' l = true ∧ (∀ o, ops.fetch h' l o = ops.fetch h l o) ∧
     ops.lambdaInfo h' l = ops.lambdaInfo h l ∧ D.lamSrcs h' l = D.lamSrcs h l
   clos : ∀ v l e, ops.callee h v = .closure l e → ops.callee h' v = .closure l e
@@ -209,6 +220,7 @@ structure Inv2 (D : RepData2 ops) (W : World) (h : H) (σ : SSt) : Prop where
   bound : ∀ x w, D.named x → σ.globals.lookup x = some w → VR2 D W h σ.store (ops.globGet h (D.slot x)) w
   unbound : ∀ x, D.named x → σ.globals.lookup x = none → ops.globGet h (D.slot x) = .undefined
   extra : D.SRx h σ.store
+  gset : ∀ x, D.setG x → σ.globals.lookup x ≠ none
   loaded : AllLoaded D h σ.store
   wfun : ∀ e n l l', W e n l → W e n l' → l = l'
   winj : ∀ e n e' n' l, W e n l → W e' n' l → e = e' ∧ n = n'
@@ -239,6 +251,11 @@ structure Laws2 (D : RepData2 ops) : Prop where
   clos_true : ∀ h v l e, ops.callee h v = .closure l e → ops.deref h v ≠ .bool false
   clos_ne_undefined : ∀ h v l e, ops.callee h v = .closure l e → v ≠ .undefined
   clos_not_envptr : ∀ h v l e, ops.callee h v = .closure l e → isEnvPtr v = false
+  /-- pairs and vectors: a heap pair / vector whose components represent … represents the store pair / vector -/
+  vr_pair : ∀ h S v (l : Nat) a d pa pd, S[l]? = some (.pair a d) → ops.deref h v = .pair pa pd →
+    D.VR h S (.ptr pa) a → D.VR h S (.ptr pd) d → D.VR h S v (.pair l)
+  vr_vec : ∀ h S v (l : Nat) xs ps, S[l]? = some (.vec xs) → D.vecElems h v = some ps → All2 (D.VR h S) ps xs →
+    D.VR h S v (.vec l)
   /-- stage-1 representations do not look at variables of the store -/
   vr_store : ∀ h S S' v w, StoreExt S S' → D.VR h S v w → D.VR h S' v w
   srx_store : ∀ h S S', StoreExt S S' → D.SRx h S → D.SRx h S'
@@ -265,6 +282,7 @@ structure Laws2 (D : RepData2 ops) : Prop where
   /-- ENTER of a closure: arguments from the stack, captured entries copied from the closure environment -/
   activation_ok : ∀ h S lam cenv bp (st : Stack) (srcs : List RSrc) nargs, D.SRx h S → ops.isLambda h lam = true →
     D.lamSrcs h lam = some srcs → ops.lambdaInfo h lam = some ⟨nargs⟩ →
+    (∃ v, ops.callee h v = .closure lam cenv) →
     (∀ (j : Nat) src, srcs[j]? = some src → ∃ g, ops.envGet h cenv j = some g) →
     (∀ (j : Nat) i, srcs[j]? = some (RSrc.arg i) → i < nargs ∧ nargs - i ≤ bp ∧ bp - (nargs - i) + 1 < st.cells.length) →
     ∃ h' a, ops.makeActivation h lam cenv bp st = .ok (h', a) ∧ (∀ k, ops.envGet h a k = none) ∧
